@@ -429,6 +429,13 @@ def run_case(ctx, case):
               'hex': data[:48].hex(), 'names': [e[1] for e in exp[:8]]})
     ctx.count('kind.seq')
 
+    # The same bytes are first handed to the parser of the sibling configuration (other offset size; operands of call_ref /
+    # implicit_pointer then have another width, so its answer - or failure - is its own business): what this configuration's parser
+    # answers afterwards must not depend on it.
+    try:
+        parser_for(le, 96 - fmt, asz, ver).parse_expr(list(data))
+    except Exception:  # noqa
+        pass
     try:
         got = parser.parse_expr(arg)
         err = None
@@ -436,6 +443,18 @@ def run_case(ctx, case):
         got, err = None, e
     if err is None:
         g = canon(got)
+        if g == exp and n:
+            # the result belongs to the caller: whatever they do to it, parsing the same bytes again gives the same answer
+            try:
+                _scribble(got)
+                g3 = canon(parser.parse_expr(arg))
+                if g3 != exp:
+                    fd = first_diff(g3, exp)
+                    ctx.fail('reparse-after-caller-modified-earlier-result|' + fd[0], fd[1] + ' [cell %r]' % (cell,), case)
+                got = parser.parse_expr(arg)
+            except Exception as e:  # noqa
+                ctx.fail_exc('reparse-after-caller-modified-earlier-result', e, case)
+                return
         if g == exp:
             # the parsed result re-encodes to the input
             try:
@@ -469,6 +488,24 @@ def run_case(ctx, case):
         return
     fd = first_diff(g, exp)
     ctx.fail('seq.' + fd[0], fd[1] + ' [cell %r]' % (cell,), case)
+
+
+def _scribble(lst, depth=0):
+    """deep in-place modification of a parse result (argument lists, blobs, nested expressions), as a consumer that rebases offsets or
+    consumes operands would do"""
+    for op in lst:
+        args = getattr(op, 'args', None)
+        if isinstance(args, list):
+            for a in args:
+                if isinstance(a, list):
+                    if a and hasattr(a[0], 'args') and depth < 6:
+                        _scribble(a, depth + 1)
+                    del a[len(a) // 2:]
+                    a.append(0x5a)
+            for i, a in enumerate(args):
+                if isinstance(a, int) and not isinstance(a, bool):
+                    args[i] = a + 0x1000
+            args.append('x')
 
 
 # ---------------------------------------------------------------------------
